@@ -10,6 +10,8 @@ import (
 	"fmt"
 	"sort"
 	"strings"
+
+	"github.com/teivah/majorana/risc"
 )
 
 const latMem = 309
@@ -245,6 +247,7 @@ func diffCase(in caseInput, cfgs []config, o diffOpts) diffOut {
 			reps = 1
 		}
 		var first string
+		schedules := map[string]bool{}
 		for rep := 0; rep < reps; rep++ {
 			obs := runMachine(c, in.Src, in.Regs, in.Mem, runOpts{Budget: budget, Log: o.Lockstep, MaxLog: 400000})
 			out.Runs++
@@ -253,6 +256,13 @@ func diffCase(in caseInput, cfgs []config, o diffOpts) diffOut {
 			for s, n := range obs.Sites {
 				if n > 0 {
 					out.Stats[fmt.Sprintf("site%d:%s", s, c.V)] += n
+				}
+			}
+			if reps > 1 && o.Lockstep {
+				schedules[scheduleDigest(obs.Log)] = true
+				if rep == reps-1 {
+					out.Stats["repeated-configs"]++
+					out.Stats["distinct-schedules-observed"] += int64(len(schedules))
 				}
 			}
 			if rep == 0 {
@@ -413,4 +423,19 @@ func frameFunc(frame string) string {
 		return frame[:i]
 	}
 	return frame
+}
+
+// scheduleDigest hashes the order in which instructions were dispatched and executed
+// (sequence ids and dispatch modes), i.e. the schedule the control unit produced.
+func scheduleDigest(log []risc.VerifRec) string {
+	h := sha256.New()
+	for _, r := range log {
+		switch r.Kind {
+		case risc.VerifKindDispatch:
+			fmt.Fprintf(h, "d%d:%d:%d,", r.Seq, r.A, r.Tick)
+		case risc.VerifKindExec:
+			fmt.Fprintf(h, "x%d:%d,", r.Seq, r.Tick)
+		}
+	}
+	return hex.EncodeToString(h.Sum(nil))[:12]
 }
